@@ -41,11 +41,17 @@ def verdict(r):
 
 
 def settle(ctx, req, r, rel):
-    """a timeout / process death may be an effect of machine load: run the request again alone with a longer limit"""
-    if isinstance(r, dict) and ('timeout' in r or 'crash' in r or 'garbled' in r):
-        r2 = ctx.run_impl(GUARD % (4 * LIMIT_MS), [req], release=rel, shards=1)[0]
+    """a timeout / process death may be an effect of machine load: run the request again alone with a longer limit;
+    after three confirmed failures the rest is taken as it is"""
+    if isinstance(r, dict) and ('timeout' in r or 'garbled' in r or ('crash' in r and 'overflowed' not in str(r['crash']))):
+        st = ctx.__dict__.setdefault('_settle', {'confirmed': 0})
+        if st['confirmed'] >= 3 or len(ctx.violations) >= 20:
+            return r
+        r2 = ctx.run_impl(GUARD % (3 * LIMIT_MS), [req], release=rel, shards=1)[0]
         if verdict(r2) is None:
             ctx.notes.append('a timeout / process death under load was not reproduced when the request ran alone')
+        else:
+            st['confirmed'] += 1
         return r2
     return r
 
